@@ -40,6 +40,10 @@ pub struct Case {
     pub k: u8,
     pub script: Vec<Ev>,
     pub batch: bool,
+    /// (WebSocket) no notification subscriber is registered: pushed notifies are
+    /// dropped, and still must not reach any caller
+    #[serde(default)]
+    pub no_subscriber: bool,
 }
 
 const CALL_TIMEOUT: Duration = Duration::from_secs(10);
@@ -271,9 +275,11 @@ pub fn check(c: &Case) -> CheckResult {
                 let (client, io) = tokio::join!(WebSocketClient::connect(&url), accept_ws(&listener));
                 let client = client.map_err(|e| Fail::new("harness-connect", e.to_string()))?;
                 let mut io = io.map_err(|e| Fail::new("harness-accept", e.to_string()))?;
-                let mut rx = client
-                    .subscribe_notifies()
-                    .map_err(|_| Fail::new("harness-subscribe", "already subscribed"))?;
+                let mut rx = if c.no_subscriber {
+                    None
+                } else {
+                    Some(client.subscribe_notifies().map_err(|_| Fail::new("harness-subscribe", "already subscribed"))?)
+                };
                 let callers: Vec<_> = if c.batch {
                     let cl = client.clone();
                     let reqs = reqs.clone();
@@ -303,6 +309,10 @@ pub fn check(c: &Case) -> CheckResult {
                 // End the connection, then drain the subscription to its end.
                 io.close().await;
                 let mut got = Vec::new();
+                let Some(rx) = rx.as_mut() else {
+                    drop(client);
+                    return Ok((results, log, None));
+                };
                 loop {
                     match tokio::time::timeout(call_timeout(), rx.recv()).await {
                         Ok(Some(m)) => {
@@ -437,6 +447,7 @@ pub fn exhaustive_cases(max_k: u8) -> Vec<Case> {
                     k,
                     script,
                     batch: false,
+                    no_subscriber: false,
                 });
             }
         }
@@ -466,7 +477,10 @@ pub fn case() -> BoxedStrategy<Case> {
                 client,
                 k,
                 script,
-                batch: batch && k <= 32,
+                // (the blocking client runs a batch on a bounded worker pool; the scripted peer
+                // holds replies back, so large batches are generated for the async clients only)
+                batch: batch && (k <= 32 || client != ClientKind::Blocking),
+                no_subscriber: client == ClientKind::Ws && order.first().is_some_and(|o| o % 3 == 0),
             }
         })
         .boxed()
